@@ -236,11 +236,14 @@ void splitMemoryAlongDepthMux(hlim::NodeGroup *group, size_t log2SplitDepth, boo
 			const auto &new_wp = subMems[i].subGroup->findWritePort((hlim::Node_MemPort*)subMems[i].original2subGroup[wp.node.get()]);
 
 			Bit newWrEn = wrEn & (addrHighBit == bool(i));
-			newWrEn.setName((boost::format("cascade_%d_wrEn") % i).str());
 
 			BitWidth addrBits{ new_wp.node->getExpectedAddressBits() };
 			HCL_ASSERT(addrLowBits.width() >= addrBits);
 			UInt newWrAddr = addrLowBits(0, addrBits); // happens if one chunk is significantly smaller than the other.
+			// addresses beyond the smaller chunk are outside the memory: such a write must be dropped, not aliased onto the truncated address
+			if (addrLowBits.width() > addrBits)
+				newWrEn &= addrLowBits.upper(addrLowBits.width() - addrBits) == 0;
+			newWrEn.setName((boost::format("cascade_%d_wrEn") % i).str());
 
 
 			new_wp.node->connectEnable(newWrEn.readPort());
